@@ -1298,6 +1298,22 @@ class C07(Prop):
                     else:
                         seq.append(['set', gi, r.choice([0, 1, 1]), g.tree(r.choice([0, 0, 1]), 0.5)])
                 cmds.append(['vseq'] + seq)
+            if r.random() < 0.08:
+                # huge gindices (beyond 2**49, where floating point arithmetic on the gindex would round): a single
+                # zero summary of great height expanded along right-most / random paths, and deep right spines
+                d = r.choice([48, 49, 50, 52, 53, 60, 63, 64])
+                gs = [(2 << d) - 1, (2 << d) - 2, (1 << d) + 1, (3 << (d - 1)) - 1, r.randrange(1 << d, 2 << d), (1 << d) - 1, (1 << (d - 1)) - 1]
+                big = []
+                for gi in r.sample(gs, 3):
+                    big.append(['set', gi, 1, g.tree(0, 0.0), gi, gi >> 1, gi ^ 1, 2, 3])
+                    big.append(['get', gi])
+                out.append(show(['tree', ['Z', d]] + big))
+                spine = ['L', g.chunk().hex()]
+                for _ in range(d):
+                    spine = ['P', ['L', g.chunk().hex()], spine]
+                gi = (2 << d) - 1
+                out.append(show(['tree', spine, ['get', gi], ['get', gi - 1], ['get', gi >> 1], ['set', gi, 0, g.tree(0, 0.0), gi, gi - 1, gi >> 3],
+                                 ['set', gi - 1, 0, g.tree(0, 0.0), gi, gi - 1], ['get', 2 * gi + 1], ['vget', gi], ['vget', gi - 1]]))
             zs = zero_leaves(tr)
             if zs and r.random() < 0.6:
                 # a read that fails BELOW a zero-subtree summary, then an expanding write through the same summary
@@ -2019,7 +2035,7 @@ class C20(Prop):
                 for o in hist:
                     if r.random() < 0.4:
                         ops.append(r.choice([['read'], ['len'], ['bytes'], ['root'], ['elem', r.randint(0, 6)], ['elem', r.randint(0, 300)],
-                                             ['iter'], ['slice', r.randint(0, 9), r.randint(0, 9)], ['nav', r.randint(1, 1 << r.choice([2, 4, 7]))]]))
+                                             ['iter'], ['slice', r.randint(0, 9), r.randint(0, 9)], ['nav', r.randint(1, 1 << r.choice([2, 4, 7]))], ['nav', 0]]))
                     ops.append(o)
                 ops.append(['read'])
             ops.append(['bytes'])
@@ -2040,8 +2056,8 @@ class C20(Prop):
             else:
                 t = ['bl', r.choice([2048, 5000, 2**16])]
             v = g.val(t, 6)
-            observe = lambda: r.choice([['bytes'], ['iter'], ['read'], ['root'], ['slice', 0, 40], ['len']])
-            ops = []
+            observe = lambda: r.choice([['bytes'], ['iter'], ['read'], ['root'], ['slice', 0, 40], ['len'], ['fork'], ['fread', r.randrange(3)]])
+            ops = [['fork']] if r.random() < 0.5 else []
             if kind(t) in ('list', 'bl'):
                 d = _get_depth(t[2] if kind(t) == 'list' else (t[1] + 255) // 256)
                 ops.append(['nav', (2 << min(d, 12)) | r.randint(1, 20)])
@@ -2058,8 +2074,8 @@ class C20(Prop):
                           ['list', ['cont', 'u8', ['vec', 'u64', 4]], 4], ['vec', ['bv', 10], 3], ['list', ['vec', 'u16', 16], 5],
                           ['union', 'none', ['vec', 'u32', 8], ['bl', 300]], nested_ty(g, 2)])
             v = g.val(t, 6)
-            observe = lambda: r.choice([['bytes'], ['bytes'], ['iter'], ['read'], ['root'], ['len']])
-            ops = [observe()] + nested_write_ops(g, t, v, r.choice([2, 4, 8]), observe)
+            observe = lambda: r.choice([['bytes'], ['bytes'], ['iter'], ['read'], ['root'], ['len'], ['fork'], ['fread', r.randrange(4)], ['fread', 0]])
+            ops = [r.choice([['fork'], observe()])] + nested_write_ops(g, t, v, r.choice([2, 4, 8]), observe)
             out.append(show(['virt', t, v] + ops + [['read'], ['bytes']]))
         # tree level: the same tree served lazily, against the virtual-tree model
         for _ in range(self.n(tier)):
@@ -2067,7 +2083,7 @@ class C20(Prop):
             maxg = 1 << (g.tree_depth(tr) + 2)
             cmds = []
             for _ in range(r.choice([2, 4, 8])):
-                gi = r.choice([1, r.randint(1, maxg), r.randint(1, maxg), r.randint(1, 1 << 10)])
+                gi = r.choice([0, 1, r.randint(1, maxg), r.randint(1, maxg), r.randint(1, 1 << 10)])
                 if r.random() < 0.5:
                     cmds.append(['vget', gi])
                 else:
